@@ -18,12 +18,13 @@ EXPLANATION = ('Proved: the signature lines of Derive and Integrate carry the in
                'Round 2 (c10c): Database.generate_draws is proved for all inputs (assumed array model): position k of the third axis of the table holds the series of the generator '
                'registered for the type of names[k] (native table first, then user generators), shape (sample size, draws, names), BiogemeError iff a type is unknown or a series is '
                'wrongly shaped, types recorded; IdManager.draw_types, BIOGEME._generate_draws (sorted draw names in id order, declared types, requested number) and '
-               'bioDraws/RandomVariable.set_id_manager + get_signature (the id in the signature is the position of the name in that same list) are proved; the numbering inside '
-               'IdManager.prepare, the seeding and the setDraws hand-over in BIOGEME.__init__ are static (ast) obligations.')
+               'bioDraws/RandomVariable.set_id_manager + get_signature (the id in the signature is the position of the name in that same list) are proved; Database.set_random_number_generators is proved to refuse exactly the reserved (native) names, so a declared type is registered in one table only; the numbering inside '
+               'IdManager.prepare, the seeding and the setDraws hand-over in BIOGEME.__init__ and in calculator.calculate_function_and_derivatives are static (ast) obligations.')
 LEVEL_TEXT = ('Index hand-over of Derive/Integrate proved; averaging/quadrature/differentiation assumed (external engine) with a bounded stand-in.  '
               'The draws table (variable <-> column <-> signature index, generator per declared type, shape, errors) is proved for all inputs under an assumed, sampled numpy array model.')
-LEVEL_NOTE = 'Trusted: pyvc, z3, ENGINE-SPEC.'
-TECHNIQUE = 'contract-based deductive verification (signature positions) + bounded stand-in with coded draws and closed-form integrals'
+LEVEL_NOTE = 'Trusted: pyvc, z3, ENGINE-SPEC; A-NDARRAY-C10 / A-NATIVE-TABLE / A-CALLABLE (pyvc/libext/c10c_numpy.py).'
+TECHNIQUE = ('contract-based deductive verification (signature positions; draws table, hand-over and numbering under an assumed numpy array model) '
+             '+ static ast obligations + bounded stand-ins (coded draws, closed-form integrals; sample test of the assumed array model)')
 DESIGN_REF = 'DESIGN.md section 3 / C10'
 
 
